@@ -708,16 +708,29 @@ func (c *Ctx) c07PanicCommand() {
 			n++
 			ok = false
 			for _, f := range g.FactsAt(v.ID) {
-				if !f.Val {
+				// os.Getenv(<name>) == <non-empty constant> holds (an inequality, or a comparison with "", is satisfied by the
+				// production environment, where the variable is not set)
+				be, isBE := ast.Unparen(f.Expr).(*ast.BinaryExpr)
+				if !isBE || f.Tag != nil {
 					continue
 				}
-				for _, call := range astx.Calls(f.Expr, false) {
+				eq := (be.Op == token.EQL && f.Val) || (be.Op == token.NEQ && !f.Val)
+				if !eq {
+					continue
+				}
+				for _, pair := range [][2]ast.Expr{{be.X, be.Y}, {be.Y, be.X}} {
+					call, isCall := ast.Unparen(pair[0]).(*ast.CallExpr)
+					if !isCall {
+						continue
+					}
 					if fn := astx.Callee(info, call); fn != nil && isFunc(fn, "os", "Getenv") {
-						ok = true
+						if s, okS := astx.ConstString(info, pair[1]); okS && s != "" {
+							ok = true
+						}
 					}
 				}
 			}
-			r.Check(ok, "C07.D5", fi.Name(), "panicking command registered only for testing", c.P.Pos(as.Pos()), "dominated by an os.Getenv(...) test",
+			r.Check(ok, "C07.D5", fi.Name(), "panicking command registered only for testing", c.P.Pos(as.Pos()), "dominated by os.Getenv(<name>) == <non-empty constant>",
 				"a command whose handler panics is registered unconditionally: any client can kill the network")
 		}
 	}
